@@ -27,7 +27,7 @@ import (
 
 func init() {
 	Register(&Prop{
-		ID: "C05", Engine: "B", Quick: 20000, Thorough: 150000, Level: "exploration",
+		ID: "C05", Engine: "B", AltEvery: 4, Quick: 20000, Thorough: 150000, Level: "exploration",
 		Rule: "each history = 1..6 frames produced by the real compress.Writer (payload lengths boundary-biased; compressible, incompressible, all-zero and position-tagged contents; None, LZ4, LZ4HC at every level incl. 0 and >12, ZSTD), read back through compress.Reader or proto.Reader with caller buffers of drawn sizes from a source that delivers drawn segments; fault-free histories must return exactly the payloads; faulty histories alter one byte at a drawn offset (for frames <= 512 bytes in the thorough tier: every offset x 3 masks), force size fields beyond the limits under a valid checksum, or cut the stream, and keep reading after the first error; oracle = an independent frame parser that knows each frame's extent and integrity; distinct = distinct (stream, fault, read plan) digests; non-trivial = a fault was injected or more than one frame / more than one segment",
 		Run:  runC05,
 	})
@@ -272,11 +272,11 @@ func runC05(t *testing.T, c *choice.Stream, r *Result, opt RunOpt) {
 	flipAny := c.Draw("flip.off", 1<<30)
 	flipMask := []byte{0x01, 0x80, 0xff, 0x10}[c.Draw("flip.mask", 4)]
 	sizesWhich := c.Draw("sizes.which", 3)
-	sizesRaw := uint32(c.Pick("sizes.raw", 1<<27+10, 1<<30, 0xffffffff))
-	sizesData := uint32(c.Pick("sizes.data", 1<<27+1, 1<<30, 0xffffffff))
+	sizesRaw := []uint32{1<<27 + 10, 1 << 30, 0xffffffff}[c.Draw("sizes.raw", 3)]
+	sizesData := []uint32{1<<27 + 1, 1 << 30, 0xffffffff}[c.Draw("sizes.data", 3)]
 	sizesInner := c.Bool("sizes.inner", 1, 3)
 	sizesNone := c.Pick("sizes.none", 0, 0, 1, 8, 4096, -1, -8, -64)
-	sizesInnerFCS := uint64(c.Pick("sizes.inner.fcs", 1<<28, 1<<30, 3<<30))
+	sizesInnerFCS := []uint64{1 << 28, 1 << 30, 3 << 30}[c.Draw("sizes.inner.fcs", 3)]
 	cutDraw := c.Draw("cut.off", 1<<30)
 	segSeed := uint64(c.Draw("src.seg", 1<<31-1))
 	srcMaxSeg := c.Pick("src.maxseg", 1, 7, 64, 4096, 1<<20)
